@@ -34,7 +34,7 @@ func newSrvWorld(r *Run, cfg srvCfg) *srvWorld {
 
 // C01: fault-free connection, unique ids, every member kind.
 func scenarioC01(r *Run) {
-	cfg := srvCfg{Prop: "C01", MaxMsgs: 6, MaxBatch: 4, Invalid: true, Unknown: true, RPCInfo: true, HoldP: 0.35, NoteP: 0.25, KMax: 4}
+	cfg := srvCfg{Prop: "C01", MaxMsgs: 6, MaxBatch: 4, Invalid: true, Unknown: true, RPCInfo: true, HoldP: 0.35, NoteP: 0.25, KMax: 4, Layout: true, Cancels: 2}
 	if r.Gen.Chance("withpush", 0.4) {
 		// server pushes interleaved with the client's calls, whose ids then count
 		// from 1 like the server's callback ids
@@ -61,7 +61,7 @@ func scenarioC01(r *Run) {
 
 // C03: notification ordering and no head-of-line blocking by calls.
 func scenarioC03(r *Run) {
-	w := newSrvWorld(r, srvCfg{Prop: "C03", MaxMsgs: 6, MaxBatch: 4, Unknown: true, RPCInfo: true, Cancels: 2, Pushes: 2, Stops: 1, HoldP: 0.5, NoteP: 0.5, KMax: 4})
+	w := newSrvWorld(r, srvCfg{Prop: "C03", MaxMsgs: 6, MaxBatch: 4, Unknown: true, RPCInfo: true, Cancels: 2, Pushes: 2, Stops: 1, HoldP: 0.5, NoteP: 0.5, KMax: 4, BigK: true})
 	w.start()
 	ok := w.drive(func() {
 		if why := w.progress(); why != "" {
@@ -111,7 +111,7 @@ func (w *srvWorld) probeC03() {
 
 // C06: concurrency bound and work conservation.
 func scenarioC06(r *Run) {
-	w := newSrvWorld(r, srvCfg{Prop: "C06", MaxMsgs: 5, MaxBatch: 6, RPCInfo: true, Cancels: 2, HoldP: 0.6, NoteP: 0.2, KMax: 4})
+	w := newSrvWorld(r, srvCfg{Prop: "C06", MaxMsgs: 5, MaxBatch: 6, RPCInfo: true, Cancels: 2, Pushes: 2, AnswerAll: true, HoldP: 0.6, NoteP: 0.2, KMax: 4, BigK: true})
 	var waiter []*member
 	w.start()
 	ok := w.drive(func() {
@@ -150,7 +150,10 @@ func scenarioC06(r *Run) {
 			continue
 		}
 		ref, ok := replies[m]
-		if !ok || !ref.obj.HasErr || ref.obj.Code != int(jrpc2.Cancelled) {
+		if !ok {
+			continue // its batch is not complete yet (a sibling is still running): nothing to judge
+		}
+		if !ref.obj.HasErr || ref.obj.Code != int(jrpc2.Cancelled) {
 			r.Fail("cancelled-waiter-wrong-reply", "call %s (id %s) was cancelled while waiting for a slot; want a request-cancelled (-32097) reply, got %+v (found=%v)", m.Tag, m.ID, ref.obj, ok)
 			return
 		}
@@ -193,7 +196,7 @@ func (w *srvWorld) provenWaiter() *member {
 
 // C07: id reuse from a small pool, CancelRequest at arbitrary points.
 func scenarioC07(r *Run) {
-	w := newSrvWorld(r, srvCfg{Prop: "C07", MaxMsgs: 6, MaxBatch: 3, IDPool: 3, Unknown: true, Cancels: 3, HoldP: 0.4, NoteP: 0.15, KMax: 4})
+	w := newSrvWorld(r, srvCfg{Prop: "C07", MaxMsgs: 6, MaxBatch: 3, IDPool: 5, Invalid: true, Unknown: true, Cancels: 3, HoldP: 0.4, NoteP: 0.15, KMax: 4})
 	w.start()
 	if !w.drive(nil) {
 		return
